@@ -299,6 +299,97 @@ pub fn run(rng: &mut Rng, n: usize, rep: &mut Report) {
                 }
             }
         }
+        // ---------------------------------------------------------------- account creation (both entrypoints, real `init`)
+        // a created account belongs to the group and the authority NAMED in the instruction, the authority signed, the account
+        // is empty (no position, no flag, no migration link, no emissions destination) and nothing else in the store moved but
+        // the payer's lamports; a PDA account sits at the address derived from (group, authority, index, third-party id), and a
+        // restricted third-party id (>= 10 000) cannot be claimed by a direct call
+        for _ in 0..6 {
+            let mut w2 = s.w.clone();
+            let authority = if rng.chance(1, 2) { s.users[0].wallet } else { w2.add_wallet(1_000_000_000) };
+            let payer = if rng.chance(1, 2) { authority } else { w2.add_wallet(1_000_000_000) };
+            let group = if rng.chance(1, 5) { group2 } else { s.group };
+            let pda = rng.chance(2, 3);
+            let (index, third): (u16, Option<u16>) = (rng.below(4) as u16, match rng.below(5) { 0 => None, 1 => Some(0), 2 => Some(rng.below(10_000) as u16), 3 => Some(10_001), _ => Some(10_000 + rng.below(50_000) as u16) });
+            let (key, bump) = if pda { ix::marginfi_account_pda(&group, &authority, index, third.unwrap_or(0)) } else { (w2.new_key(), 0) };
+            let deviation = rng.below(7);
+            let mut ixn = if pda {
+                use anchor_lang::{InstructionData, ToAccountMetas};
+                Instruction {
+                    program_id: marginfi::ID,
+                    accounts: marginfi::accounts::MarginfiAccountInitializePda {
+                        marginfi_group: group, marginfi_account: key, authority, fee_payer: payer,
+                        instructions_sysvar: solana_program::sysvar::instructions::ID, system_program: solana_program::system_program::ID,
+                    }.to_account_metas(None),
+                    data: marginfi::instruction::MarginfiAccountInitializePda { account_index: index, third_party_id: third }.data(),
+                }
+            } else {
+                ix::initialize_account(group, key, authority, payer)
+            };
+            let what = match deviation {
+                0 => { for m in ixn.accounts.iter_mut() { if m.pubkey == authority && authority != payer { m.is_signer = false; } } if authority != payer { "the authority does not sign" } else { "none" } }
+                1 if pda => { let other = ix::marginfi_account_pda(&group, &authority, index.wrapping_add(1), third.unwrap_or(0)).0; ixn = subst(&ixn, key, other); "the account offered is the PDA of another index" }
+                2 if pda => { let other = ix::marginfi_account_pda(&group, &roles.stranger, index, third.unwrap_or(0)).0; ixn = subst(&ixn, key, other); "the account offered is the PDA of another authority" }
+                3 => { ixn = subst(&ixn, key, s.users[1].acct); "the account offered already exists (another user's account)" }
+                _ => "none",
+            };
+            let target = ixn.accounts.iter().find(|m| m.is_writable && m.pubkey != payer).map(|m| m.pubkey).unwrap_or(key);
+            let before = w2.accounts.clone();
+            let now = w2.clock_ts;
+            let r = w2.exec(&ixn);
+            cells += 1;
+            rep.bump("cases");
+            rep.bump("account_creation_cells");
+            let restricted = pda && third.map(|t| t >= 10_000).unwrap_or(false);
+            match r {
+                Err(_) => {
+                    rep.bump("account_creation_refused");
+                    if w2.accounts != before {
+                        rep.fail(format!("C08 a refused account creation changed the store ({}, pda {}, third-party id {:?})", what, pda, third));
+                    }
+                    if what == "none" && !restricted {
+                        rep.fail(format!("C08 a plain account creation was refused (pda {}, index {}, third-party id {:?}, payer is authority {})", pda, index, third, payer == authority));
+                    }
+                }
+                Ok(()) => {
+                    rep.bump("account_creation_ok");
+                    if what != "none" {
+                        rep.fail(format!("C08 account creation succeeded although {} (pda {}, index {}, third-party id {:?})", what, pda, index, third));
+                    }
+                    if restricted {
+                        rep.fail(format!("C08 a direct call claimed the restricted third-party id {:?} (ids >= 10000 are reserved for CPI from the registered program)", third));
+                    }
+                    let got = w2.marginfi_account(&target);
+                    let mut expect: marginfi_type_crate::types::MarginfiAccount = bytemuck::Zeroable::zeroed();
+                    expect.group = group;
+                    expect.authority = authority;
+                    expect.last_update = now as u64;
+                    if pda { expect.account_index = index; expect.third_party_index = third.unwrap_or(0); expect.bump = bump; }
+                    if bytemuck::bytes_of(&got) != bytemuck::bytes_of(&expect) {
+                        let positions = got.lending_account.balances.iter().filter(|b| b.active != 0).count();
+                        let line = format!("a freshly created account is not the empty account of the named group and authority: group ok {}, authority ok {}, flags {:#x}, active positions {}, migrated_from default {}, migrated_to default {}, emissions destination default {}, index {} / third-party {} / bump {} (expected {} / {} / {})",
+                            got.group == group, got.authority == authority, got.account_flags, positions, got.migrated_from == Pubkey::default(), got.migrated_to == Pubkey::default(),
+                            got.emissions_destination_account == Pubkey::default(), got.account_index, got.third_party_index, got.bump, expect.account_index, expect.third_party_index, expect.bump);
+                        rep.fail(format!("C08 {}", line));
+                        rep.fail(format!("C16 {}", line));
+                    }
+                    // nothing else moved but lamports of the payer
+                    for (k, a) in w2.accounts.iter() {
+                        if *k == target { continue; }
+                        match before.get(k) {
+                            Some(b) if b.data == a.data && b.owner == a.owner && (*k == payer || b.lamports == a.lamports) => {}
+                            _ => { rep.fail(format!("C08 account creation changed another account of the store ({})", k)); break; }
+                        }
+                    }
+                    // and the new account obeys the signer rule from the first instruction on: a stranger cannot deposit into it
+                    if group == s.group {
+                        let tok = s.users[0].toks[0];
+                        let r2 = w2.exec(&ix::deposit(&b0, target, roles.stranger, tok, 1, None));
+                        if r2.is_ok() { rep.fail("C08 a stranger deposited into a freshly created account of somebody else".to_string()); }
+                    }
+                }
+            }
+        }
         rep.sample(format!("auth matrix on a world with {} banks", s.banks.len()));
     }
 }
